@@ -14,6 +14,8 @@ pub enum Call {
     LinesTake(u32),
     GetLineSlice(u32, u32, u32),
     Source,
+    /// clone the view (possibly while others index it) and ask the clone for a line
+    CloneGetLine(u32),
 }
 
 #[derive(Clone, Debug, PartialEq, Eq)]
@@ -34,6 +36,7 @@ impl Call {
             Call::LinesTake(k) => json!({"op": "lines_take", "k": k}),
             Call::GetLineSlice(l, c, n) => json!({"op": "get_line_slice", "line": l, "col": c, "span": n}),
             Call::Source => json!({"op": "source"}),
+            Call::CloneGetLine(i) => json!({"op": "clone_get_line", "idx": i}),
         }
     }
     pub fn from_json(v: &Value) -> Option<Call> {
@@ -45,6 +48,7 @@ impl Call {
             "lines_take" => Call::LinesTake(u("k")?),
             "get_line_slice" => Call::GetLineSlice(u("line")?, u("col")?, u("span")?),
             "source" => Call::Source,
+            "clone_get_line" => Call::CloneGetLine(u("idx")?),
             _ => return None,
         })
     }
@@ -56,6 +60,7 @@ impl Call {
             Call::LinesTake(_) => "lines_take",
             Call::GetLineSlice(..) => "get_line_slice",
             Call::Source => "source",
+            Call::CloneGetLine(_) => "clone_get_line",
         }
     }
     pub fn hash_into(&self, h: &mut crate::hash::H64) {
@@ -77,6 +82,10 @@ impl Call {
                 h.u64(*n as u64)
             }
             Call::Source => h.u64(6),
+            Call::CloneGetLine(i) => {
+                h.u64(7);
+                h.u64(*i as u64)
+            }
         }
     }
 }
@@ -150,6 +159,11 @@ pub fn apply<V: ViewApi>(v: &V, call: &Call) -> Res {
         Call::LinesTake(k) => Res::Lines(v.lines_collect(Some(k))),
         Call::GetLineSlice(l, c, n) => Res::Slice(v.get_line_slice(l, c, n).map(own)),
         Call::Source => Res::Text(own(v.source())),
+        Call::CloneGetLine(i) => {
+            let c = v.clone_view();
+            let r = c.get_line(i).map(own);
+            Res::Line(r)
+        }
     }
 }
 
@@ -251,6 +265,7 @@ impl RefView {
             ),
             Call::GetLineSlice(l, c, n) => Res::Slice(self.line_slice(l, c, n)),
             Call::Source => Res::Text(self.text.clone()),
+            Call::CloneGetLine(i) => Res::Line(self.line(i).map(str::to_owned)),
         }
     }
 }
